@@ -5,6 +5,7 @@ Panels: instances separated by `|`, columns by `;`, values by `,`; an empty cell
 Tables (2-D): rows separated by `|`, values by `,`; an empty row is `e`.
 -/
 import SkVerif.Model.C14Interp
+import SkVerif.Model.C14Feat
 import SkVerif.Drv.Parse
 namespace SkVerif.Drv.C14
 open SkVerif SkVerif.C14 SkVerif.Drv
@@ -22,14 +23,14 @@ def parseCell? (s : String) : Option Cell :=
 
 def parseInst? (s : String) : Option Inst := (s.splitOn ";").mapM parseCell?
 
-/-- `0` = panel without instances -/
+/-- `_` = panel without instances -/
 def parsePanel? (s : String) : Option Panel :=
-  if s == "0" then some [] else (s.splitOn "|").mapM parseInst?
+  if s == "_" then some [] else (s.splitOn "|").mapM parseInst?
 
 def showCell (c : Cell) : String := if c.isEmpty then "e" else ",".intercalate (c.map showRat)
 def showInst (i : Inst) : String := ";".intercalate (i.map showCell)
-def showPanel (p : Panel) : String := if p.isEmpty then "0" else "|".intercalate (p.map showInst)
-def showTable (t : List (List Rat)) : String := if t.isEmpty then "0" else "|".intercalate (t.map showCell)
+def showPanel (p : Panel) : String := if p.isEmpty then "_" else "|".intercalate (p.map showInst)
+def showTable (t : List (List Rat)) : String := if t.isEmpty then "_" else "|".intercalate (t.map showCell)
 
 def parseOInt? (s : String) : Option (Option Int) :=
   if s == "none" then some none else (parseInt? s).map some
@@ -49,8 +50,86 @@ def parseIntervals? (s : String) : Option Intervals :=
   | ["other"] => some .other
   | _ => none
 
+def parseNoneOrRat? (s : String) : Option (Option Rat) :=
+  if s == "none" then some none else (parseRat? s).map some
+
+def parseMethod? (s : String) : Option Method :=
+  match s with
+  | "ffill" => some .ffill | "pad" => some .ffill | "bfill" => some .bfill | "backfill" => some .bfill
+  | "constant" => some .constant | "mean" => some .mean | "median" => some .median
+  | "linear" => some .linear | "nearest" => some .nearest | "drift" => some .drift
+  | "unknown" => some .unknown
+  | _ => none
+
+def parseFeat? (s : String) : Option Feat :=
+  match s with
+  | "mean" => some .mean | "var" => some .var | "min" => some .min | "max" => some .max
+  | "slope" => some .slope | "sum" => some .sum | "range" => some .range
+  | _ => none
+
+def parsePair? (s : String) : Option (Int × Int) :=
+  match s.splitOn ":" with
+  | [a, b] => do let a ← parseInt? a; let b ← parseInt? b; pure (a, b)
+  | _ => none
+
+def parsePairs? (s : String) : Option (List (Int × Int)) :=
+  if s == "-" then some [] else (s.splitOn "/").mapM parsePair?
+
+/-- table of a library function given by the harness: `x:y,x:y,…` -/
+def parseFnTable? (s : String) : Option (List (Rat × Rat)) :=
+  if s == "-" then some [] else (s.splitOn ",").mapM (fun p =>
+    match p.splitOn ":" with
+    | [a, b] => do let a ← parseRat? a; let b ← parseRat? b; pure (a, b)
+    | _ => none)
+
+def lookupFn (tbl : List (Rat × Rat)) (x : Rat) : Rat := ((tbl.find? (fun p => p.1 == x)).map (·.2)).getD 0
+
+def showOTable (t : List (List (Option Rat))) : String :=
+  if t.isEmpty then "_" else "|".intercalate (t.map (fun r => if r.isEmpty then "e" else ",".intercalate (r.map showORat)))
+
+def cumsum (xs : List Rat) : List Rat := (xs.foldl (fun (acc : List Rat × Rat) x => (acc.1 ++ [acc.2 + x], acc.2 + x)) ([], 0)).1
+
+def parseSeriesFn? (s : String) : Option (List Rat → List Rat) :=
+  match s.splitOn "=" with
+  | ["cumsum"] => some cumsum
+  | ["rev"] => some List.reverse
+  | ["head2"] => some (List.take 2)
+  | ["tbl", t] => (parseFnTable? t).map (fun tbl => List.map (lookupFn tbl))
+  | _ => none
+
 def handle (toks : List String) : String :=
   match toks with
+  | ["impute", m, value, mv, z] =>
+    match parseMethod? m, parseNoneOrRat? value, parseNoneOrRat? mv, parseORatList? z with
+    | some m, some v, some mv, some z => showE showORatList (impute m v mv z)
+    | _, _, _, _ => "bad-op"
+  | ["rife", feats, ivs, x] =>
+    match (feats.splitOn ",").mapM parseFeat?, parsePairs? ivs, parsePanel? x with
+    | some fs, some ivs, some x => showE showOTable (rife fs ivs x)
+    | _, _, _ => "bad-op"
+  | ["rowprim", "mean", x] =>
+    match parsePanel? x with
+    | some x => showE showOTable (rowPrimitives (fun inst => inst.map mean?) x)
+    | none => "bad-op"
+  | ["rowser", fn, x] =>
+    match parseSeriesFn? fn, parsePanel? x with
+    | some f, some x => showE showPanel (rowSeries (fun inst => inst.map f) x)
+    | _, _ => "bad-op"
+  | ["acf", adj, nlags, z] =>
+    match parseBool? adj, parseInt? nlags, parseRatList? z with
+    | some adj, some nl, some z => showE showORatList (acf adj nl z)
+    | _, _, _ => "bad-op"
+  | ["cos", tbl, z] =>
+    match parseFnTable? tbl, parseRatList? z with
+    | some tbl, some z => showRatList (mapSeries (lookupFn tbl) z)
+    | _, _ => "bad-op"
+  | ["adapt", t, zfit, z] =>
+    match parseInst? zfit, parseInst? z with
+    | some zf, some z =>
+      if t == "minmax" then showE showInst (adaptor minMax zf z)
+      else if t == "maxabs" then showE showInst (adaptor maxAbs zf z)
+      else "bad-op"
+    | _, _ => "bad-op"
   | ["paa", k, x] =>
     match parseIntParam? k, parsePanel? x with
     | some k, some x => showE showPanel (paa k x)
